@@ -39,7 +39,8 @@ EXPECT_NOTES = {'all': ['tie-event-first', 'tie-event-expiry', 'event-before-exp
 FLOORS = {'quick': {'paths': 1000, 'checks': 5000}, 'thorough': {'paths': 10000, 'checks': 50000}}
 
 DKINDS = ['absent', 'none', 'sym', 'inf', 'str']
-FSM_EVENTS = ['arm', 'disarm', 'poke', 'goto-idle', 'goto-armed']
+FSM_EVENTS_BASE = ['arm', 'disarm', 'poke', 'goto-idle', 'goto-armed']
+FSM_EVENTS = FSM_EVENTS_BASE + ['hop-idle', 'hop-armed']      # the hop events only as the first event of a shard
 
 
 def dur_value(env, kind, name):
@@ -122,9 +123,19 @@ def logs_equal(got, exp):
 def make_fsm_class(d0):
     class TF(edzed.FSM):
         STATES = ['idle']
-        TIMERS = {'armed': (d0, 'tick'), 'cool': (2.0, Goto('idle'))}
+        # 'hop' is a timed state (7 s) whose entry action leaves it at once (chained transition): it is an
+        # intermediate state, no timer may be armed for it
+        TIMERS = {'armed': (d0, 'tick'), 'cool': (2.0, Goto('idle')), 'hop': (7.0, Goto('cool'))}
         EVENTS = [('arm', None, 'armed'), ('tick', ['armed'], 'cool'),
-                  ('disarm', ['armed', 'cool'], 'idle'), ('poke', None, None)]
+                  ('disarm', ['armed', 'cool'], 'idle'), ('poke', None, None),
+                  ('hop-idle', None, 'hop'), ('hop-armed', None, 'hop'), ('land-armed', ['hop'], 'armed')]
+
+        def enter_hop(self):
+            data = edzed.fsm_event_data.get()
+            if data.get('to') == 'armed':
+                self.event('land-armed')
+            else:
+                self.event(Goto('idle'))
     return TF
 
 
@@ -191,7 +202,12 @@ class FsmRef:
         if etype in ('arm', 'goto-armed'):
             self._enter(now, 'armed', d2)
             return True
-        if etype == 'goto-idle':
+        if etype == 'hop-armed':
+            # via the intermediate timed state 'hop' (invisible, no timer); the chained event carries no
+            # 'duration' item, so the duration of 'armed' comes from t_armed / the class default
+            self._enter(now, 'armed', None)
+            return True
+        if etype in ('goto-idle', 'hop-idle'):
             self._enter(now, 'idle')
             return True
         if etype == 'disarm':
@@ -215,7 +231,7 @@ def scen_fsm(env, k0, k1, k2, nev, ev0=None, presched=False):
     kw = {}
     if k1 != 'absent':
         kw['t_armed'] = d1v
-    for st in ('idle', 'armed', 'cool'):
+    for st in ('idle', 'armed', 'cool', 'hop'):
         kw[f'on_enter_{st}'] = edzed.Event(probe, 'enter')
         kw[f'on_exit_{st}'] = edzed.Event(probe, 'exit')
     fsm = TF('fsm', cond_tick=lambda: accept, **kw)
@@ -257,7 +273,7 @@ def scen_fsm(env, k0, k1, k2, nev, ev0=None, presched=False):
             sync_ref(now, lambda: len(probe.log))
             if ref.error:
                 return False
-            et = ev0 if (i == 0 and ev0) else env.pick(FSM_EVENTS, f'ev{i}')
+            et = ev0 if (i == 0 and ev0) else env.pick(FSM_EVENTS_BASE, f'ev{i}')
             d2v, d2 = (None, None)
             data = {}
             if et in ('arm', 'goto-armed') and k2 != 'absent':
@@ -265,6 +281,8 @@ def scen_fsm(env, k0, k1, k2, nev, ev0=None, presched=False):
                 data['duration'] = d2v
             exp_ret = ref.event(now, et, clamp(d2))
             real_et = {'goto-idle': Goto('idle'), 'goto-armed': Goto('armed')}.get(et, et)
+            if et in ('hop-idle', 'hop-armed'):
+                data['to'] = et[4:]
             try:
                 ret = fsm.event(real_et, **data)
             except edzed.EdzedCircuitError:
@@ -584,6 +602,9 @@ def shards(tier):
                     out.append({'name': f'fsm d0={k0} t_armed={k1} duration={k2} n={n} ev0={ev0}', 'scenario': 'scen_fsm',
                                 'params': {'k0': k0, 'k1': k1, 'k2': k2, 'nev': n, 'ev0': ev0},
                                 'cost': 3 ** ks.count('sym')})
+                    if ev0 in ('hop-idle', 'hop-armed') and tier == 'quick' and ks.count('sym') != 1:
+                        out.pop()
+                        continue
                     if 'sym' in ks and ev0 in ('arm', 'goto-armed', None) and (tier == 'thorough' or ks.count('sym') == 1):
                         # events pre-scheduled as loop callbacks: at a tie they run BEFORE the block's timer
                         out.append({'name': f'fsm d0={k0} t_armed={k1} duration={k2} n={n} ev0={ev0} presched',
